@@ -1,5 +1,6 @@
 import ParryModel.Proto
 import ParryModel.C08.Model
+import ParryModel.C08.Model2
 /-!
 C08 protocol handler.  One function `hist`: the arguments encode a whole operation history; the output is, after every
 operation, the delta of the complete tree state against the state after the previous operation (see `harness/src/c08.rs`).
@@ -110,8 +111,8 @@ def stepModel (w : World Float) : POp → Option (World Float × String × Nat)
     (preUpdateOrInsert useFix w.q id).map fun q' => (⟨q', fun d => if d = id then b else w.cur d⟩, "I", 0)
   | .rem id => (remove w.q id).map fun r => (⟨r.1, w.cur⟩, "R", if r.2 then 1 else 0)
   | .refit m => (refit w.q w.cur m).map fun r => (⟨r.1, w.cur⟩, "F", r.2)
-  | .rebalance _ => none
-  | .rebuild _ _ => none
+  | .rebalance m => (rebalance w.q m).map fun q' => (⟨q', w.cur⟩, "B", 0)
+  | .rebuild items dil => (rebuild w.q items dil).map fun q' => (⟨q', curAfter items w.cur⟩, "C", 0)
 
 /-- final world of the model, `none` on panic -/
 def finalModel (ops : List POp) : Option (World Float) :=
@@ -461,7 +462,7 @@ def handler (fn : String) : Option Handler :=
         | some (ops, b) => queryOracle ops b o
         | none => "skip bad-args" }
   | "histo" => some {
-      -- histories with `rebalance` / `clear_and_rebuild`: not modelled; the invariant oracle judges the dumped Rust states
+      -- same histories as `hist`, judged by the invariant oracle on the dumped Rust states only (no model comparison)
       model := fun _ => some "-"
       oracle := fun a o => match run phist a with
         | some ops => runOracle ops o
